@@ -187,6 +187,14 @@ def classify(prop, failures, R, info):
     return mine, tool, other
 
 
+def changed_functions(info):
+    try:
+        base = json.load(open(os.path.join(VERIF, 'spec', 'baseline_bodies.json'), encoding='utf-8'))['bodies']
+    except Exception:
+        return set()
+    return set(f['key'] for f in info.functions if f['has_body'] and base.get(f['key']) != f['body_sha256'])
+
+
 def offending_functions(tool, info):
     """functions of /repo that a tool (non-semantic) diagnostic points into"""
     keys = set()
@@ -295,6 +303,10 @@ def main(argv=None):
             if not tool:
                 break
             off = offending_functions(tool, info)
+            if not off - opaque - external - behavioural or all(f.oid is None and not f.lines for f in tool):
+                # no usable location (e.g. an internal error of the verifier): suspect the functions that are new or whose
+                # body differs from the baseline the contracts were written against
+                off = off | (changed_functions(info) - external)
             # a layout whose textual copy the verifier rejects first gets a behavioural denotation; only if that is rejected
             # too does it become opaque
             lay = set(k for k in off if k.startswith('KeyboardLayout for ') and 'AnyLayout' not in k and k not in behavioural and k not in opaque)
@@ -308,7 +320,9 @@ def main(argv=None):
             # the verifier cannot read these functions: leave them unverified and decide the rest; a function that is still
             # rejected as external_body (its very signature is unsupported) is hidden from the verifier altogether
             opaque |= new
-            external |= again
+            external |= set(k for k in again if ' for ' not in k)   # an item of a trait impl cannot be hidden individually
+            if not new and not (again - set(k for k in again if ' for ' in k)):
+                break
         # refine failing coarse units cell by cell so that the failing cells are named
         coarse_failed = sorted(set(R[f.oid]['unit'] for f in mine if f.oid in R and R[f.oid]['kind'] == 'coarse' and f.kind == 'semantic'))
         refined = False
@@ -339,7 +353,9 @@ def main(argv=None):
     deductive_ok = info is not None
     if deductive_ok:
         deps = dependencies(prop, info, R)
-        lost_here = [k for (k, props) in info.lost if prop in props or k in deps]
+        # a lost contract of a *private* helper is only a lost stepping stone: the public contracts still have to be proved,
+        # now from whatever the body calls instead. A lost public function is a lost anchor of the property itself.
+        lost_here = [k for (k, props) in info.lost if (prop in props or k in deps) and k not in info.private_contracts]
         opaque_here = sorted(k for k in opaque if k in deps)
         if lost_here:
             undecided_reasons.append('lost-anchor: function(s) under contract no longer exist: ' + ', '.join(lost_here))
@@ -358,7 +374,12 @@ def main(argv=None):
         if not (tool or res.crashed) and res.verified + res.errors < n_exec:
             undecided_reasons.append('vacuous run: Verus checked %d items but the crate has %d exec functions' % (res.verified + res.errors, n_exec))
         if info.invariant_audit and PROPS[prop].get('needs_invariants', True):
-            undecided_reasons.append('invariant audit (assumption A5): ' + '; '.join(info.invariant_audit))
+            # only the invariants of types this property's dependencies belong to matter to it
+            dep_types = set(k.rsplit('::', 1)[0].split(' for ')[-1] for k in dependencies(prop, info, R)
+                            if k.rsplit('::', 1)[-1] not in ('new', 'default'))
+            mine_audit = [a for a in info.invariant_audit if any((' %s ' % t) in (' ' + a.replace('::', ' ') + ' ') for t in dep_types if t)]
+            if mine_audit:
+                undecided_reasons.append('invariant audit (assumption A5): ' + '; '.join(mine_audit))
     # anything that makes the deductive argument incomplete voids its verdicts (a failed clause may be an artefact)
     verdicts_valid = deductive_ok and not undecided_reasons
 
@@ -375,6 +396,16 @@ def main(argv=None):
             if not ok:
                 undecided_reasons.append('assumption not discharged by Kani: ' + why)
 
+    # a safety obligation that fails inside a function nobody wrote a contract for (a helper a refactoring introduced) needs a
+    # precondition only its callers can justify: "needs-contract" is undecided, not a violation (the stand-ins still run)
+    if deductive_ok:
+        contracted = set(f['key'] for f in info.functions if f['has_contract'])
+        for f in mine:
+            if f.kind == 'semantic' and f.oid and (f.oid.endswith('/safety') or '/call' in f.oid):
+                fn = f.oid.split('/safety')[0].split('/call')[0]
+                if fn not in contracted:
+                    f.kind = 'undecided'
+                    f.message = 'needs-contract: %s in %s, a function without a contract' % (f.message, fn)
     findings = load_findings()
     open_f = {(x['property'], x['obligation']): x for x in findings if x.get('status') == 'open'}
     # the `#observed` twin of a listed cell only says "the defect still has its recorded shape"; when the cell itself is
